@@ -1,6 +1,7 @@
 package main
 
 import (
+	"os"
 	"fmt"
 	"go/constant"
 	"go/token"
@@ -199,6 +200,11 @@ func blockPos(b *ssa.BasicBlock) token.Pos {
 	// smallest valid position found in the header or its body entry
 	min := token.Pos(1 << 40)
 	for _, ins := range b.Instrs {
+		if _, isPhi := ins.(*ssa.Phi); isPhi {
+			// a phi carries the position of the variable's DECLARATION, which can precede
+			// earlier loops (e.g. an accumulator declared before two loops): not a loop position
+			continue
+		}
 		if p := ins.Pos(); p.IsValid() && p < min {
 			min = p
 		}
@@ -245,6 +251,46 @@ func addrUsesOK(v ssa.Value, root *ssa.Alloc) bool {
 		case *ssa.IndexAddr:
 			if u.X != v || !addrUsesOK(u, root) {
 				return false
+			}
+		case *ssa.DebugRef:
+		case *ssa.MakeClosure:
+			// captured by a closure that is only deferred or called in place inside this function
+			// (its body is executed inline against the same cell): the variable does not escape.
+			// A closure that is passed on as a value may be run by other code: escapes.
+			if !closureStaysLocal(u) {
+				return false
+			}
+		default:
+			return false
+		}
+	}
+	return true
+}
+
+func closureStaysLocal(mc *ssa.MakeClosure) bool {
+	refs := mc.Referrers()
+	if refs == nil {
+		return false
+	}
+	for _, r := range *refs {
+		switch u := r.(type) {
+		case *ssa.Defer:
+			if u.Call.Value != mc {
+				return false
+			}
+			for _, a := range u.Call.Args {
+				if a == mc {
+					return false
+				}
+			}
+		case *ssa.Call:
+			if u.Call.Value != mc {
+				return false
+			}
+			for _, a := range u.Call.Args {
+				if a == mc {
+					return false
+				}
 			}
 		case *ssa.DebugRef:
 		default:
@@ -833,6 +879,9 @@ func (f *Frame) discover(h *ssa.BasicBlock, li *loopInfo) {
 	for _, bs := range f.discBack {
 		if bs.epoch != baseEpoch {
 			li.havocAll = true
+			if os.Getenv("GOVC_DEBUG") != "" {
+				fmt.Fprintf(os.Stderr, "DEBUG %s loop#%d: body changes the epoch (a call havocs all heaps)\n", canonName(f.fn), li.ordinal)
+			}
 		}
 		for k, v := range bs.vars {
 			if bv, ok := base[k]; !ok || bv != v {
@@ -1013,8 +1062,21 @@ func (f *Frame) execInstr(instr ssa.Instruction, st *State, b *ssa.BasicBlock, o
 	case *ssa.ChangeInterface:
 		f.vals[v] = f.val(v.X)
 	case *ssa.ChangeType:
-		f.vals[v] = f.val(v.X)
-		f.copyAux(v, v.X)
+		src, dst := f.vc.sorts.sortOf(v.X.Type()), f.vc.sorts.sortOf(v.Type())
+		if _, isStruct := v.Type().Underlying().(*types.Struct); isStruct && src != dst {
+			// conversion between two named struct types with the same underlying type: each named
+			// struct has its own SMT datatype, so the value is rebuilt field by field
+			stT := v.Type().Underlying().(*types.Struct)
+			x := f.val(v.X)
+			var fs []string
+			for i := 0; i < stT.NumFields(); i++ {
+				fs = append(fs, f.vc.sorts.fieldGet(v.X.Type(), i, x))
+			}
+			f.defVal(v, f.vc.sorts.mkStruct(v.Type(), fs))
+		} else {
+			f.vals[v] = f.val(v.X)
+			f.copyAux(v, v.X)
+		}
 	case *ssa.Convert:
 		f.execConvert(v, st)
 	case *ssa.TypeAssert:
